@@ -20,8 +20,15 @@ package ndjson
 // C++ reader therefore takes every field of a record as possibly absent: each one is looked up with `find`, none with
 // the throwing `at`.
 //@ func writeRecordConverters@emits:"if (auto it = j.find(\"%s\"); it != j.end()) {\n"
-//@   property C02
+//@   property C02,C08
 //@   iteration 0: every_field_may_be_absent: emittedHere("if (auto it = j.find(\"%s\"); it != j.end()) {\n") == 1 && emittedHere("it->get_to(value.%s);\n") == 1
+// C08 / C02: the JSON key of a field is its name in the model; the struct member it is read into and written from is
+// spelled the way the struct declares it (FieldIdentifierName: snake-cased, escaped when the result is reserved in
+// C++ - a field `class` is the member `class_`).
+//@   iteration 0: a_field_is_read_into_the_member_the_struct_declares: emittedArg("if (auto it = j.find(\"%s\"); it != j.end()) {\n", 0, 0, string) == field.Name && emittedArg("it->get_to(value.%s);\n", 0, 0, string) == common.FieldIdentifierName(field.Name)
+//@ func writeRecordConverters@emits:"if (yardl::ndjson::ShouldSerializeFieldValue(value.%s)) {\n"
+//@   property C02,C08
+//@   iteration 0: a_field_is_written_from_the_member_the_struct_declares: emittedHere("if (yardl::ndjson::ShouldSerializeFieldValue(value.%s)) {\n") == 1 && emittedArg("if (yardl::ndjson::ShouldSerializeFieldValue(value.%s)) {\n", 0, 0, string) == common.FieldIdentifierName(field.Name) && emittedHere("j.push_back({\"%s\", value.%s});\n") == 1 && emittedArg("j.push_back({\"%s\", value.%s});\n", 0, 0, string) == field.Name && emittedArg("j.push_back({\"%s\", value.%s});\n", 0, 1, string) == common.FieldIdentifierName(field.Name)
 
 // docs/reference/ndjson.md, Enums: a value that has a symbol is written as that symbol (a JSON string), any other
 // value as its integer; on reading, a string is looked up among the symbols (an unknown one is an error) and a number
